@@ -6,7 +6,7 @@ from collections import OrderedDict, defaultdict, deque
 
 from optsim import universe as U
 
-ALL_KINDS = ('tuple', 'list', 'dict', 'odict', 'ddict', 'deque', 'nt', 'structseq', 'custom', 'none')
+ALL_KINDS = ('tuple', 'list', 'dict', 'odict', 'ddict', 'deque', 'nt', 'structseq', 'custom', 'none', 'dataclass')
 KEY_STYLES = ('str', 'int', 'mixed', 'key', 'ukey', 'tuplekey')
 
 
@@ -88,6 +88,9 @@ def gen_tree(t, budget, ctx, depth=0):
     if kind == 'nt':
         cls = t.choice(U.NT_CLASSES, 'ntcls')
         n = len(cls._fields)
+    if kind == 'dataclass':
+        cls = t.choice(U.DC_CLASSES, 'dccls')
+        n = 2 if cls is U.DC1 else 1
     keys = None
     if kind in ('dict', 'odict', 'ddict'):
         keys = gen_keys(t, n, ctx)
@@ -112,6 +115,8 @@ def gen_tree(t, budget, ctx, depth=0):
         return cls(*children)
     if kind == 'structseq':
         return U.make_structseq(children)
+    if kind == 'dataclass':
+        return U.DC1(children[0], children[1], tag=t.draw(3, 'dctag')) if cls is U.DC1 else U.DC2(children[0])
     if kind == 'custom':
         cls = t.choice(ctx.custom_classes, 'customcls')
         return cls(children, aux=t.draw(3, 'aux'))
